@@ -67,6 +67,12 @@ type ExecutionContext struct {
 	template   *Template
 	macroDepth int
 
+	// tagState holds what tags have to remember during one execution (the position of a
+	// cycle, what ifchanged saw last), keyed by the tag's node. It is shared by all child
+	// contexts of one execution and never outlives it, so the compiled template stays
+	// unchanged and can be executed concurrently.
+	tagState map[any]any
+
 	Autoescape bool
 	Public     Context
 	Private    Context
@@ -89,6 +95,7 @@ func newExecutionContext(tpl *Template, ctx Context) *ExecutionContext {
 		Public:     ctx,
 		Private:    privateCtx,
 		Autoescape: autoescape,
+		tagState:   make(map[any]any),
 	}
 }
 
@@ -101,6 +108,7 @@ func NewChildExecutionContext(parent *ExecutionContext) *ExecutionContext {
 		Autoescape: parent.Autoescape,
 	}
 	newctx.Shared = parent.Shared
+	newctx.tagState = parent.tagState
 
 	// Copy all existing private items
 	newctx.Private.Update(parent.Private)
